@@ -134,6 +134,60 @@ fn diff_desc(a: &Out, b: &Out) -> String {
     "equal".into()
 }
 
+/// how many further fresh processes judge() compares with the baseline process
+pub static EXTRA_FRESH: std::sync::atomic::AtomicUsize = std::sync::atomic::AtomicUsize::new(2);
+
+/// programs of the shape that gives the cl23+ de-inliner several competing candidates: 2..3
+/// functions, each a chain of 2..3 nested lets over its parameters
+pub fn gen_let_functions(c: &mut Choices, d: Dialect) -> String {
+    fn expr(c: &mut Choices, vars: &[String]) -> String {
+        let v = |c: &mut Choices| vars[c.pick(vars.len())].clone();
+        match c.pick(6) {
+            0 => format!("(+ {} {})", v(c), v(c)),
+            1 => format!("(- {} {})", v(c), v(c)),
+            2 => format!("(* {} {})", v(c), v(c)),
+            3 => format!("(logand {} {})", v(c), v(c)),
+            4 => format!("(concat {} {})", v(c), v(c)),
+            _ => format!("(sha256 {} {})", v(c), v(c)),
+        }
+    }
+    fn chain(c: &mut Choices, depth: usize, vars: &mut Vec<String>, ctr: &mut usize) -> String {
+        if depth == 0 {
+            let n = c.range(2, 5);
+            let items: Vec<String> = (0..n).map(|_| if c.chance(128) { vars[c.pick(vars.len())].clone() } else { expr(c, vars) }).collect();
+            return format!("(list {})", items.join(" "));
+        }
+        let nb = c.range(1, 2);
+        let mut binds = vec![];
+        let mut new = vec![];
+        for _ in 0..nb {
+            *ctr += 1;
+            let name = format!("V{}", *ctr);
+            binds.push(format!("({name} {})", expr(c, vars)));
+            new.push(name);
+        }
+        vars.extend(new);
+        let inner = chain(c, depth - 1, vars, ctr);
+        if c.chance(60) {
+            format!("(let ({}) (c {} {}))", binds.join(" "), vars[c.pick(vars.len())].clone(), inner)
+        } else {
+            format!("(let ({}) {})", binds.join(" "), inner)
+        }
+    }
+    let nf = c.range(2, 3);
+    let mut ctr = 0usize;
+    let mut out = format!("(mod (X Y Z)\n  (include {})\n", d.sigil());
+    for i in 0..nf {
+        let mut vars = vec!["A".to_string(), "B".to_string(), "C".to_string()];
+        let depth = c.range(2, 3);
+        let body = chain(c, depth, &mut vars, &mut ctr);
+        out.push_str(&format!("  (defun F{i} (A B C) {body})\n"));
+    }
+    let calls: Vec<String> = (0..nf).map(|i| format!("(F{i} X Y Z)")).collect();
+    out.push_str(&format!("  (list {})\n)\n", calls.join(" ")));
+    out
+}
+
 pub fn judge(text: &str, d: Dialect, history: &[Op], st: &mut Stats) -> Result<bool, Viol> {
     let base = match compile_fresh(text, d) {
         Ok(o) => o,
@@ -205,7 +259,7 @@ pub fn judge(text: &str, d: Dialect, history: &[Op], st: &mut Stats) -> Result<b
         }
     }
     // (b) further fresh processes (fresh hash seeds)
-    for k in 0..2 {
+    for k in 0..EXTRA_FRESH.load(Ordering::Relaxed) {
         match compile_fresh(text, d) {
             Ok(o) if o == base => {}
             Ok(o) => return Err(Viol::new("fresh-processes-disagree", "identical output", diff_desc(&base, &o), case(json!({"process": k, "baseline_hex": base.code_hex, "other_hex": o.code_hex, "baseline_symbols": base.symbols, "other_symbols": o.symbols})))),
@@ -246,7 +300,8 @@ impl C05Prop {
                 st.label("checked");
                 let gen_names = case.feats.iter().any(|f| matches!(*f, "let" | "let*" | "assign" | "assign-inline" | "assign-lambda" | "lambda"));
                 let interesting = history.len() >= 2 && history.iter().any(|o| matches!(o, Op::CompileBad(_) | Op::SetCounter(_) | Op::AmbientIntMode(_)));
-                if gen_names && interesting {
+                let let_functions = case.feats.contains(&"let-functions");
+                if (gen_names && interesting) || let_functions {
                     st.nontrivial(fnv(format!("{text}{history:?}").as_bytes()));
                     st.sample(|| json!({"dialect": d.name(), "history": format!("{history:?}"), "source": text}));
                 }
@@ -262,7 +317,7 @@ impl Prop for C05Prop {
         "C05"
     }
     fn rule(&self) -> &'static str {
-        "Target: a C01-generator program (lets, assigns, lambdas, repeated sub-expressions, many helpers, constants) under one sigil. Baseline: its output bytes and all symbol entries compiled in a fresh process at counter 0. Then (a) a generated history in this process -- compiles of other programs in other dialects, compiles that fail in the reader / frontend / codegen / macro run / constant evaluation / inline recursion / assign cycle, jumps of the fresh-name counter to 0, digit-count boundaries, 10^6, near usize::MAX, the ambient integer mode held at either value (as inside another compile), a compile on another thread -- followed by the target; (b) two further fresh processes (fresh hash seeds); (c) 2..8 threads compiling the target concurrently (sharing the counter); (d) after every operation of the history the ambient integer mode equals what it was before. Oracle: every output equals the baseline byte for byte, symbol entries included. Non-trivial: history length >= 2 containing a failing compile, a counter jump or an ambient mode, and the target has compiler-generated names (let/assign/lambda). Distinct by hash of source + history."
+        "Target: a C01-generator program (lets, assigns, lambdas, repeated sub-expressions, many helpers, constants) under one sigil. Baseline: its output bytes and all symbol entries compiled in a fresh process at counter 0. Then (a) a generated history in this process -- compiles of other programs in other dialects, compiles that fail in the reader / frontend / codegen / macro run / constant evaluation / inline recursion / assign cycle, jumps of the fresh-name counter to 0, digit-count boundaries, 10^6, near usize::MAX, the ambient integer mode held at either value (as inside another compile), a compile on another thread -- followed by the target; (b) two further fresh processes (fresh hash seeds); (c) 2..8 threads compiling the target concurrently (sharing the counter); (d) after every operation of the history the ambient integer mode equals what it was before. Oracle: every output equals the baseline byte for byte, symbol entries included. Second section: template programs of 2..3 functions, each a chain of 2..3 nested lets (the shape that gives the cl23+ de-inliner competing candidates), under cl23/cl23.1/cl24, compared across 6 fresh processes, an in-process compile and 2..8 threads. Non-trivial: history length >= 2 containing a failing compile, a counter jump or an ambient mode, and the target has compiler-generated names (let/assign/lambda); or a let-functions target. Distinct by hash of source + history."
     }
     fn sections(&self, tier: Tier) -> Vec<Section> {
         vec![Section {
@@ -273,12 +328,31 @@ impl Prop for C05Prop {
             },
             exhaustive: false,
             what: "generated target x generated in-process history x fresh processes x concurrent threads",
+        }, Section {
+            name: "let_functions",
+            kind: SectionKind::Random {
+                cases: tier.pick(120, 3_000),
+                maxlen: 200,
+            },
+            exhaustive: false,
+            what: "2..3 functions of nested lets (several de-inlining candidates) under cl23/cl23.1/cl24: 6 fresh processes + in-process + threads must agree",
         }]
     }
     fn run(&self, _sec: &str, input: &Input, tier: Tier, st: &mut Stats) -> Verdict {
         let Input::Bytes(bytes) = input else {
             return Verdict::Skip("index input not used");
         };
+        if _sec == "let_functions" {
+            let mut c = Choices::new(bytes);
+            let d = *c.choose(&[Dialect::Cl23, Dialect::Cl231, Dialect::Cl24]);
+            let text = gen_let_functions(&mut c, d);
+            st.label("random_case");
+            st.label("target:let-functions");
+            EXTRA_FRESH.store(5, Ordering::Relaxed);
+            let r = self.finish(&text, d, &[], &["let", "let-functions"], st);
+            EXTRA_FRESH.store(2, Ordering::Relaxed);
+            return r;
+        }
         let case = decode_case(bytes, tier, None);
         st.label("random_case");
         if case.collision {
@@ -360,6 +434,11 @@ impl Prop for C05Prop {
         let d = Dialect::parse(case.get("dialect")?.as_str()?)?;
         // the replayed history: counter jumps (the only state a replay needs to reproduce)
         let hist = vec![Op::SetCounter(1_000_000), Op::CompileBad(0), Op::SetCounter(9)];
+        let n = case.get("fresh_processes").and_then(|n| n.as_u64()).unwrap_or(2) as usize;
+        // a replay about hash seeding compares processes only (no counter jumps, whose effect on
+        // synthesised symbol names is a separate, listed finding)
+        let hist = if case.get("fresh_processes").is_some() { vec![] } else { hist };
+        EXTRA_FRESH.store(n, Ordering::Relaxed);
         Some(match judge(src, d, &hist, st) {
             Err(v) => Verdict::Violation(Box::new(v)),
             Ok(_) => Verdict::Pass,
